@@ -495,6 +495,15 @@ fn process_tags(
             };
             let gen_result = t.generate_events(context);
             if !context.in_specs {
+                // Exceeding a limit is never resolved by a retry; report it immediately.
+                if let Err(
+                    SvgdxError::LoopLimitError(..)
+                    | SvgdxError::VarLimitError(..)
+                    | SvgdxError::DepthLimitExceeded(..),
+                ) = gen_result
+                {
+                    return gen_result.map(|_| None);
+                }
                 // if we *are* in a specs block, we don't care if there were errors;
                 // a specs entry may have insufficient context until reuse time.
                 // We do still call generate_events for side-effects including registering
